@@ -32,9 +32,12 @@ def gen(rng, tier):
             opts.append(opt(pol))
         args = []
         kinds = set()
+        # in a fifth of the sequences the settings address a top-level list (keys whose first segment is an index)
+        keyset = KEYS2 if rng.chance(0.8) else ["0", "1", "0.a", "0.b", "1.x", "2", "name", "0.l.0"]
+        if keyset is not KEYS2: kinds.add("toplist")
         for _ in range(1 + rng.below(8)):
             r = rng.below(20)
-            key = rng.pick(KEYS2)
+            key = rng.pick(keyset)
             if r < 12:
                 args.append(key + "=" + rng.pick(VALS)); kinds.add("kv")
             elif r < 14:
